@@ -193,8 +193,8 @@ def check_respec(case, rec):
         raise Violation(f"system flow {float(ghe2.V_flow_system)!r} after re-specification, expected {v * n1!r}",
                         sig={"kind": "respec_system_flow"})
     # and it must equal what a fresh manager gives for the second specification
-    fresh_scn = dict(case, flow_type="SYSTEM", flow=v * n1)
-    gs._LOADS[core_jhash(fresh_scn)] = gs.loads_for(first)  # identical loads (the calibration depends on the flow otherwise)
+    # identical loads (their calibration depends on the flow otherwise)
+    fresh_scn = dict(case, flow_type="SYSTEM", flow=v * n1, loads={"family": "explicit", "values": gs.loads_for(first)})
     fresh = gs.run_design(fresh_scn, "L2")
     if fresh.error is None and (fresh.coords != [(float(x), float(y)) for x, y in ghe2.gFunction.bore_locations] or
                                 abs(fresh.H - float(ghe2.bhe.b.H)) > 1e-9):
